@@ -55,7 +55,8 @@ Fixpoint ok_simple' ttl c (last : list (key * (Z * outcome))) (h : list (Z * key
   | _, _ => false
   end.
 
-Definition run_cacheable (c : condk) (r : run) : bool :=
+(* for the oracle any run whose items were all accepted may be found in the cache later *)
+Definition run_storable (c : condk) (r : run) : bool :=
   forallb (fun x => cond_truthy c (OVal x)) (fst r) &&
   match snd r with None => true | Some e => match eval_cond c (OExc e) with CRExc => true | _ => false end end.
 Fixpoint ok_iter ttl c (last : list (key * (Z * run))) (h : list (Z * key * run * Z)) (obs : list (run * bool)) : bool :=
@@ -66,7 +67,7 @@ Fixpoint ok_iter ttl c (last : list (key * (Z * run))) (h : list (Z * key * run 
                     | Some (t, sr) => if fresh ttl now t then Some sr else None
                     | None => None end in
       (* a fresh execution is always a real run; a replay must be the stored run, still within ttl *)
-      if ex then run_eqb res r0 && ok_iter ttl c (if run_cacheable c r0 then (k, (now, r0)) :: last else last) h' obs'
+      if ex then run_eqb res r0 && ok_iter ttl c (if run_storable c r0 then (k, (now, r0)) :: last else last) h' obs'
       else match stored with
            | Some sr => run_eqb res sr && ok_iter ttl c last h' obs'
            | None => false
